@@ -1,25 +1,30 @@
-(* Theory/Hitzer.v — C07: the closed-form (Hitzer) inverses of codegen_hitzer_inv for d <= 3.
+(* Theory/Hitzer.v — C07: the closed-form (Hitzer) inverses of codegen_hitzer_inv for d <= 4.
 
-   Statement (hitzer_le3):  in every algebra A of dimension d <= 3 that satisfies the sign-table
-   hypotheses and whose blades are spelled in ascending generator order (decidable: [ascending_ok A];
-   true for every default basis, any signature over {1,-1,0} in any order, any start index), for EVERY
-   well-formed operand x (sparse, any key order, stored zeros) over EVERY commutative ring, the
-   numerator  num = hitzer_num x  of the model satisfies
-        x * num == den      and      num * x == den        (den = hitzer_den x num, a scalar).
-   With Theory/Inverse.v (inv_model_sound) this gives  x * x.inv() = x.inv() * x = 1  whenever
-   x.inv() returns, and (hitzer_singular_le3)  den = 0  ==>  x has no two-sided inverse, i.e.
-   ZeroDivisionError is raised only for operands without inverse.
+   Statement (hitzer_le3, hitzer_d4, hitzer_le4):  in every algebra A of dimension d <= 4 that satisfies
+   the sign-table hypotheses and whose blades are spelled in ascending generator order (decidable:
+   [ascending_ok A]; true for every default basis, any signature over {1,-1,0} in any order, start
+   index 0..2: default_le4_ok), for EVERY well-formed operand x (sparse, any key order, stored zeros)
+   over EVERY commutative ring, the numerator  num = hitzer_num x  of the model satisfies
+        x * num == den      and      num * x == den        (den = hitzer_den x num, a scalar),
+   and  den = 0  ==>  x has no two-sided inverse (over any ring with 1 <> 0).
+   With Theory/Inverse.v (inv_model_sound) this gives (inv_le4_sound, zde_only_singular_le4,
+   inv_le4_complete):  x * x.inv() = x.inv() * x = 1  whenever x.inv() returns, ZeroDivisionError only
+   for operands without inverse, and over a field a value exactly for the invertible operands.
 
    Method.  For well-formed operands every model operator acts on the DENSE coefficient function
    K |-> coeff K x  (rep):  products are convolutions over the 2^d keys (Algebra.gp_conv), involutions
    and grade selection are diagonal.  Under [ascending_ok] the sign table is
         sgn A a b = (-1)^#{(i,j) : i in a, j in b, i > j} * prod_{i in a /\ b} m_i
-   with m_i the square of generator i.  The two scalar equations thereby become polynomial identities
+   with m_i the square of generator i.  The scalar equations thereby become polynomial identities
    in the 2^d coefficients of x AND in m_0..m_(d-1) taken as ring indeterminates, so all 3^d
-   signatures (and every ordering) are covered at once; each coefficient identity is closed by [ring]
-   (d = 3: 16 identities of degree 4 in 11 indeterminates, about 50 s).
+   signatures (and every ordering) are covered at once; each coefficient identity is closed by [ring].
+   d <= 3: the full identities (d = 3: 16 identities of degree 4 in 11 indeterminates, about 50 s).
+   d = 4: a monolithic [ring] does not finish (DESIGN section 10); the proof is STAGED (section 7 below):
+   N = x conj(x) has grades 0,3,4 only (degree 2), hence num = conj(x) (2a - N), and by associativity
+   (Theory/Algebra.v)  x num = N (2a - N),  num x = N' (2a' - N')  with N' = conj(x) x, a' = a (trace);
+   N (2a - N) is scalar for every N with grades 0,3,4 (degree 2 in six indeterminates).  About 5 s.
 
-   d = 4, 5 and the Shirokov scheme are NOT covered here (see the header of Props/C07.v). *)
+   d = 5 and the Shirokov scheme are NOT covered here (see the header of Props/C07.v). *)
 From Coq Require Import List ZArith Bool Ring Lia Permutation RelationClasses.
 From KV Require Import Model.All Model.Inverse Theory.WF Theory.Sparse Theory.Product Theory.Ops
   Theory.SignBits Theory.OpsWF Theory.Algebra Theory.Natural Theory.Inverse.
@@ -604,3 +609,422 @@ Example hitzer_singular_Z1 :
   hitzer Zops idF A [(0, 1); (1, 1)] = Ok ([(0, 1); (1, -1)], 0)
   /\ inv_model Zops Zdv Zisz idF A [(0, 1); (1, 1)] = Err EZeroDiv.
 Proof. vm_compute. auto. Qed.
+
+(* ================= 7. d = 4: the closed form by a STAGED proof ================= *)
+(* N = x * conj(x) is invariant under conjugation, so it has grades 0, 3, 4 only (D4a: ten identities of
+   degree 2).  Hence  N - 2 N_(3,4) = 2a - N  with a the scalar part of N, and
+        x * num = (x * xc) * (2a - N) = N * (2a - N)          (associativity, Theory/Algebra.v)
+   is scalar (D4b: fifteen identities of degree 2 in the six coefficients of N).  On the other side
+        (2a - N) * x = 2a x - x (xc x) = x * (2a' - N'),   N' = xc * x,  a' = a   (D4t: trace)
+   so  num * x = (xc x)(2a' - N') = N' (2a' - N'), scalar by the same two facts for N'. *)
+Section Hitzer4.
+  Variable R : Type.
+  Variables (rO rI : R) (radd rmul rsub : R -> R -> R) (ropp : R -> R).
+  Hypothesis Rth : ring_theory rO rI radd rmul rsub ropp (@eq R).
+  Add Ring Rring4 : Rth.
+  Local Notation O := (mkOps R radd rsub rmul ropp rO rI).
+  Local Notation "a + b" := (radd a b) : kvr_scope.
+  Local Notation "a * b" := (rmul a b) : kvr_scope.
+  Local Notation "a - b" := (rsub a b) : kvr_scope.
+  Local Notation "- a" := (ropp a) : kvr_scope.
+  Local Notation equiv := (Sparse.equiv rO rI radd rmul rsub ropp).
+  Local Infix "==" := equiv (at level 70, no associativity).
+  Local Notation scal := (Algebra.scal rmul).
+  Local Notation one := (Algebra.one rI).
+  Local Notation cf K x := (coeff O K x).
+  Local Notation dmul := (Hitzer.dmul R rO rI radd rmul ropp).
+  Local Notation dinv := (Hitzer.dinv R ropp).
+  Local Instance equiv_Equiv4 : Equivalence equiv := equiv_Equivalence R rO rI radd rmul rsub ropp.
+
+  (* ---------- the dense facts ---------- *)
+  Definition mask (gs : list nat) (g : Z -> R) (K : Z) : R := if grade_in gs K then g K else rO.
+  Definition two_a_minus (g : Z -> R) (K : Z) : R := ((if Z.eqb K 0 then g 0 + g 0 else rO) - g K)%r.
+
+  Lemma D4a m f K : In K (zr 4) -> grade_in [1; 2]%nat K = true ->
+    dmul 4 m f (dinv grades_conjugate f) K = rO /\ dmul 4 m (dinv grades_conjugate f) f K = rO.
+  Proof.
+    intros H. vm_compute in H.
+    repeat (destruct H as [H|H]; [subst K; vm_compute; intros HH; try discriminate HH; split; ring|]).
+    destruct H.
+  Qed.
+
+  Lemma D4t m f g : dmul 4 m f g 0 = dmul 4 m g f 0.
+  Proof. vm_compute; ring. Qed.
+
+  Lemma D4b m g K : In K (zr 4) -> K <> 0 ->
+    dmul 4 m (mask [0; 3; 4]%nat g) (two_a_minus (mask [0; 3; 4]%nat g)) K = rO.
+  Proof.
+    intros H. vm_compute in H.
+    repeat (destruct H as [H|H];
+            [subst K; intros HK; try (exfalso; apply HK; reflexivity); vm_compute; ring|]).
+    destruct H.
+  Qed.
+
+  Lemma grades_4 K : In K (zr 4) -> grade_in [0; 3; 4]%nat K = false -> grade_in [1; 2]%nat K = true.
+  Proof.
+    intros H. vm_compute in H.
+    repeat (destruct H as [H|H]; [subst K; vm_compute; intros HH; try discriminate HH; reflexivity|]).
+    destruct H.
+  Qed.
+
+  Lemma grades_4' K : In K (zr 4) -> K <> 0 -> grade_in [3; 4]%nat K = false -> grade_in [1; 2]%nat K = true.
+  Proof.
+    intros H. vm_compute in H.
+    repeat (destruct H as [H|H];
+            [subst K; intros HK; try (exfalso; apply HK; reflexivity); vm_compute; intros HH;
+             try discriminate HH; reflexivity|]).
+    destruct H.
+  Qed.
+
+  (* ---------- the model ---------- *)
+  Variable A : alg.
+  Local Notation L := (alg_len A).
+  Local Notation wf := (@wfmv R A).
+  Hypothesis SH : sign_hyps A.
+  Hypothesis Hasc : ascending_ok A = true.
+  Variable F : mv R -> mv R.
+  Hypothesis HF : filter_ok rO rI radd rmul rsub ropp A F.
+  Hypothesis Hd4 : a_d A = 4%nat.
+
+  Local Notation GP := (gp O A).
+  Local Notation SUB := (sub O A).
+  Local Notation m := (mR R rO rI ropp A).
+  Local Notation rep := (Hitzer.rep R rO rI radd rmul rsub ropp A).
+  Local Notation wfgp := (wfmv_gp R rO rI radd rmul rsub ropp A SH).
+  Local Notation wfsub := (wfmv_sub R rO rI radd rmul rsub ropp A SH).
+  Local Notation gpc := (gp_congr R rO rI radd rmul rsub ropp Rth A).
+  Local Notation subc := (sub_congr R rO rI radd rmul rsub ropp Rth A).
+  Local Notation gpa := (gp_assoc R rO rI radd rmul rsub ropp Rth A SH).
+  Local Notation repgp := (rep_gp R rO rI radd rmul rsub ropp Rth A SH Hasc).
+
+  Lemma inr_zr K : 0 <= K < L <-> In K (zr 4).
+  Proof. rewrite <- Hd4. symmetry. apply zr_L. Qed.
+
+  Lemma wf_2aN a N : wf (SUB (scal a one) N). Proof. apply wfsub. Qed.
+
+  (* coefficients of 2a - N *)
+  Lemma cf_2aN a N K : wf N -> 0 <= K < L ->
+    cf K (SUB (scal a one) N) = ((if Z.eqb K 0 then a else rO) - cf K N)%r.
+  Proof.
+    intros WN HK.
+    rewrite (cf_sub R rO rI radd rmul rsub ropp Rth A SH) by (try assumption; apply wfmv_scal, wfmv_one).
+    rewrite (cf_scal R rO rI radd rmul rsub ropp Rth), (cf_one R rO rI radd rmul rsub ropp).
+    destruct (Z.eqb K 0); ring.
+  Qed.
+
+  (* N with grades 0, 3, 4 only  ==>  N (2a - N) is a scalar *)
+  Lemma scalar_from_N N h : rep N h ->
+    (forall K, 0 <= K < L -> grade_in [1; 2]%nat K = true -> h K = rO) ->
+    forall K, 0 <= K < L -> K <> 0 -> cf K (GP N (SUB (scal (h 0 + h 0)%r one) N)) = rO.
+  Proof.
+    intros HN H12 K HK HK0. pose proof HN as [WN EN].
+    assert (H0 : 0 <= 0 < L) by (apply (inr_0 A)).
+    assert (HM : rep (SUB (scal (h 0 + h 0)%r one) N) (two_a_minus h)).
+    { split; [apply wfsub|]. intros k Hk. rewrite (cf_2aN _ N k WN Hk). unfold two_a_minus.
+      rewrite (EN k Hk). reflexivity. }
+    destruct (repgp _ _ _ _ HN HM) as [_ E]. rewrite (E K HK). rewrite Hd4.
+    assert (Hmask : forall k, 0 <= k < L -> h k = mask [0; 3; 4]%nat h k).
+    { intros k Hk. unfold mask. destruct (grade_in [0; 3; 4]%nat k) eqn:Eg; [reflexivity|].
+      apply H12; [exact Hk|]. apply grades_4; [apply inr_zr; exact Hk | exact Eg]. }
+    rewrite <- Hd4.
+    rewrite (dmul_ext R rO rI radd rmul ropp A h (mask [0; 3; 4]%nat h) (two_a_minus h)
+               (two_a_minus (mask [0; 3; 4]%nat h)) K HK Hmask).
+    - rewrite Hd4. apply D4b; [apply inr_zr; exact HK | exact HK0].
+    - intros k Hk. unfold two_a_minus. rewrite <- (Hmask k Hk), <- (Hmask 0 H0). reflexivity.
+  Qed.
+
+  Ltac fin := try assumption; try apply wfgp; try apply wfsub; try reflexivity.
+
+  Theorem hitzer_d4 x : wf x ->
+    exists num, hitzer_num O F A x = Ok num /\ wf num /\
+      let den := hitzer_den O F A x num in
+      GP x num == scal den one /\ GP num x == scal den one /\
+      (den = rO -> rI <> rO -> ~ exists y, wf y /\ GP x y == one /\ GP y x == one).
+  Proof.
+    intros Hx.
+    assert (H0 : 0 <= 0 < L) by (apply (inr_0 A)).
+    set (f := fun k => cf k x).
+    set (fc := dinv grades_conjugate f).
+    pose proof (rep_self R rO rI radd rmul rsub ropp A x Hx) as Rx. fold f in Rx.
+    set (xc := i_conj O F A x).
+    pose proof (rep_iconj R rO rI radd rmul rsub ropp Rth A SH F HF x f Rx) as Rxc. fold xc fc in Rxc.
+    pose proof Rxc as [Wxc _].
+    set (N := i_mul O F A x xc).
+    pose proof (rep_imul R rO rI radd rmul rsub ropp Rth A SH Hasc F HF x xc f fc Rx Rxc) as RN. fold N in RN.
+    pose proof RN as [WN EN].
+    destruct (HF _ (wfgp x xc)) as [_ EqN]. change (F (GP x xc)) with N in EqN.
+    (* the other product N' = xc * x *)
+    set (N' := GP xc x).
+    pose proof (repgp xc x fc f Rxc Rx) as RN'. fold N' in RN'. pose proof RN' as [WN' EN'].
+    set (fN := dmul (a_d A) m f fc) in *. set (fN' := dmul (a_d A) m fc f) in *.
+    assert (H12 : forall K, 0 <= K < L -> grade_in [1; 2]%nat K = true -> fN K = rO /\ fN' K = rO).
+    { intros K HK Hg. unfold fN, fN'. rewrite Hd4. apply D4a; [apply inr_zr; exact HK | exact Hg]. }
+    assert (Haa : fN 0 = fN' 0) by (unfold fN, fN'; rewrite Hd4; apply D4t).
+    (* the numerator *)
+    assert (Hok : grades_ok A [3; 4]%nat = true) by (unfold grades_ok; rewrite Hd4; reflexivity).
+    pose proof (grade_sel_ok R rO rI radd rmul rsub ropp A [3; 4]%nat N Hok) as Eg.
+    set (g := select rO rI radd rmul rsub ropp (flat_map (indices_for_grade A) [3; 4]%nat) N) in Eg.
+    set (Mm := i_sub O F A N (i_mul O F A (scalar_mv (cst O 2)) g)).
+    assert (En : hitzer_num O F A x = Ok (i_mul O F A xc Mm)).
+    { unfold hitzer_num. rewrite Hd4. fold xc. fold N. rewrite Eg. reflexivity. }
+    exists (i_mul O F A xc Mm). split; [exact En|].
+    destruct (HF _ (wfgp xc Mm)) as [Wnum Enum]. change (F (GP xc Mm)) with (i_mul O F A xc Mm) in Wnum, Enum.
+    split; [exact Wnum|].
+    set (num := i_mul O F A xc Mm) in *.
+    (* Mm = 2a - N *)
+    set (a2 := (fN 0 + fN 0)%r).
+    assert (Wg : wf g).
+    { apply (grade_sel_wf R rO rI radd rmul rsub ropp A (sh_keys A SH) (sh_nodup A SH) (sh_grade A SH) [3; 4]%nat N g Eg WN). }
+    assert (WMm : wf Mm).
+    { apply (HF _ (wfsub _ _)). }
+    assert (EMm : Mm == SUB (scal a2 one) N).
+    { apply (eqv_in R rO rI radd rmul rsub ropp A); [exact WMm | apply wfsub|].
+      intros K HK. rewrite (cf_2aN a2 N K WN HK).
+      destruct (HF _ (wfsub N (i_mul O F A (scalar_mv (cst O 2)) g))) as [_ E1].
+      change (F (SUB N (i_mul O F A (scalar_mv (cst O 2)) g))) with Mm in E1. rewrite (E1 K).
+      destruct (HF _ (wfgp (scalar_mv (cst O 2)) g)) as [W2 E2].
+      change (F (GP (scalar_mv (cst O 2)) g)) with (i_mul O F A (scalar_mv (cst O 2)) g) in W2, E2.
+      rewrite (cf_sub R rO rI radd rmul rsub ropp Rth A SH) by assumption.
+      rewrite (E2 K).
+      unfold scalar_mv. rewrite (gp_scalar_l R rO rI radd rmul rsub ropp Rth A SH (cst O 2) g Wg K).
+      rewrite (cf_scal R rO rI radd rmul rsub ropp Rth).
+      rewrite (grade_sel_coeff R rO rI radd rmul rsub ropp A (sh_keys A SH) (sh_grade A SH) [3; 4]%nat N g K Eg HK).
+      assert (Hin : (if grade_in [3; 4]%nat K && zin K (keys N) then cf K N else rO)
+                    = (if grade_in [3; 4]%nat K then cf K N else rO)).
+      { destruct (grade_in [3; 4]%nat K); [|reflexivity]. cbn [andb].
+        destruct (zin K (keys N)) eqn:Ez; [reflexivity|].
+        symmetry. apply (coeff_notin R rO rI radd rmul rsub ropp). apply zin_false_iff. exact Ez. }
+      rewrite Hin. rewrite (EN K HK). cbn [cst o_add o_one]. unfold a2.
+      destruct (Z.eqb K 0) eqn:G0.
+      - apply Z.eqb_eq in G0. subst K. cbn. ring.
+      - destruct (grade_in [3; 4]%nat K) eqn:G34; [ring|].
+        destruct (H12 K HK) as [Hz _].
+        { apply grades_4'; [apply inr_zr; exact HK | intros E0; subst K; discriminate | exact G34]. }
+        rewrite Hz. ring. }
+    (* side A *)
+    assert (EA : GP x num == GP N (SUB (scal a2 one) N)).
+    { transitivity (GP x (GP xc Mm)).
+      { apply gpc; fin. }
+      transitivity (GP (GP x xc) Mm); [symmetry; apply gpa; assumption|].
+      apply gpc; fin. symmetry. exact EqN. }
+    (* side B *)
+    assert (EB : GP num x == GP N' (SUB (scal (fN' 0 + fN' 0)%r one) N')).
+    { rewrite <- Haa. fold a2.
+      transitivity (GP (GP xc Mm) x).
+      { apply gpc; fin. }
+      transitivity (GP xc (GP Mm x)); [apply gpa; assumption|].
+      transitivity (GP xc (GP x (SUB (scal a2 one) N'))).
+      2:{ symmetry. apply gpa; try assumption. apply wfsub. }
+      apply gpc; fin.
+      (* (2a - N) x = x (2a - N') *)
+      transitivity (GP (SUB (scal a2 one) N) x).
+      { apply gpc; fin. }
+      transitivity (SUB (GP (scal a2 one) x) (GP N x)).
+      { apply (gp_sub_l R rO rI radd rmul rsub ropp Rth A SH); try assumption. apply wfmv_scal, wfmv_one. }
+      transitivity (SUB (GP x (scal a2 one)) (GP x N')).
+      2:{ symmetry. apply (gp_sub_r R rO rI radd rmul rsub ropp Rth A SH); try assumption. apply wfmv_scal, wfmv_one. }
+      apply subc; try apply wfgp.
+      - transitivity (scal a2 (GP one x)).
+        { apply (gp_scal_l R rO rI radd rmul rsub ropp Rth A SH); [apply wfmv_one | exact Hx]. }
+        transitivity (scal a2 (GP x one)).
+        { apply (scal_congr R rO rI radd rmul rsub ropp Rth).
+          transitivity x; [apply (gp_one_l R rO rI radd rmul rsub ropp Rth A SH); exact Hx
+                          | symmetry; apply (gp_one_r R rO rI radd rmul rsub ropp Rth A SH); exact Hx]. }
+        symmetry. apply (gp_scal_r R rO rI radd rmul rsub ropp Rth A SH); [exact Hx | apply wfmv_one].
+      - transitivity (GP (GP x xc) x).
+        { apply gpc; fin. }
+        apply gpa; assumption. }
+    (* the denominator *)
+    pose proof (rep_self R rO rI radd rmul rsub ropp A num Wnum) as Rnum.
+    destruct (repgp x num _ _ Rx Rnum) as [W1 E1]. destruct (repgp num x _ _ Rnum Rx) as [W2 E2].
+    intros den.
+    assert (Eden : den = cf 0 (GP x num)).
+    { unfold den, hitzer_den, e_of.
+      destruct (HF (sp O A x num) (wfmv_canon_sort R A (sh_keys A SH) (sh_nodup A SH) _)) as [_ H].
+      unfold i_sp. rewrite (H 0). apply (sp_e R rO rI radd rmul rsub ropp Rth A SH x num Hx Wnum). }
+    assert (Etr : cf 0 (GP num x) = cf 0 (GP x num)).
+    { rewrite (E1 0 H0), (E2 0 H0), Hd4. apply D4t. }
+    assert (Ed : forall K, cf K (scal den one) = if Z.eqb K 0 then den else rO).
+    { intros K. rewrite (cf_scal R rO rI radd rmul rsub ropp Rth), (cf_one R rO rI radd rmul rsub ropp).
+      destruct (Z.eqb K 0); ring. }
+    assert (Wd : wf (scal den one)) by (apply wfmv_scal, wfmv_one).
+    assert (G1 : GP x num == scal den one).
+    { apply (eqv_in R rO rI radd rmul rsub ropp A); try assumption; intros K HK; rewrite Ed;
+        destruct (Z.eqb K 0) eqn:EK.
+      - apply Z.eqb_eq in EK. subst K. symmetry. exact Eden.
+      - rewrite (EA K). apply (scalar_from_N N fN RN); [intros k Hk Hg; apply (H12 k Hk Hg) | exact HK|].
+        intros E0. subst K. discriminate. }
+    assert (G2 : GP num x == scal den one).
+    { apply (eqv_in R rO rI radd rmul rsub ropp A); try assumption; intros K HK; rewrite Ed;
+        destruct (Z.eqb K 0) eqn:EK.
+      - apply Z.eqb_eq in EK. subst K. rewrite Etr. symmetry. exact Eden.
+      - rewrite (EB K). apply (scalar_from_N N' fN' RN'); [intros k Hk Hg; apply (H12 k Hk Hg) | exact HK|].
+        intros E0. subst K. discriminate. }
+    split; [exact G1|]. split; [exact G2|].
+    (* singular operands *)
+    intros Hden H10 (y & Hy & Hxy & Hyx).
+    assert (Hxn : GP x num == []).
+    { transitivity (scal rO one); [|apply (scal_zero R rO rI radd rmul rsub ropp Rth)].
+      replace (scal rO one) with (scal den one) by (f_equal; exact Hden). exact G1. }
+    pose proof (cancel_l R rO rI radd rmul rsub ropp Rth A SH x num y Hx Wnum Hy Hyx Hxn) as Hn0.
+    pose proof (conj_inverse R rO rI radd rmul rsub ropp Rth A SH y x Hy Hx Hxy) as Hc.
+    destruct (HF _ (wfmv_canon_sort R A (sh_keys A SH) (sh_nodup A SH) (raw_involution O grades_conjugate x))) as [_ Exc].
+    fold (conjugate O A x) in Exc. change (F (conjugate O A x)) with xc in Exc.
+    assert (Hyc : GP (conjugate O A y) xc == one).
+    { transitivity (GP (conjugate O A y) (conjugate O A x)); [|exact Hc].
+      apply gpc; fin; apply (wfmv_canon_sort R A (sh_keys A SH) (sh_nodup A SH)). }
+    assert (HM0 : Mm == []).
+    { apply (cancel_l R rO rI radd rmul rsub ropp Rth A SH xc Mm (conjugate O A y) Wxc WMm
+               (wfmv_canon_sort R A (sh_keys A SH) (sh_nodup A SH) _) Hyc).
+      transitivity num; [symmetry; exact Enum | exact Hn0]. }
+    assert (HN0 : N == []).
+    { apply (eqv_in R rO rI radd rmul rsub ropp A); [exact WN | apply wfmv_nil|]. intros K HK.
+      assert (Ha : fN 0 = rO).
+      { pose proof (EMm 0) as E. rewrite (HM0 0), (cf_2aN a2 N 0 WN H0), (EN 0 H0) in E.
+        cbn [Z.eqb coeff o_zero] in E. unfold a2 in E.
+        transitivity ((fN 0 + fN 0) - fN 0)%r; [ring | symmetry; exact E]. }
+      pose proof (EMm K) as E. rewrite (HM0 K), (cf_2aN a2 N K WN HK) in E. cbn [coeff o_zero] in E |- *.
+      unfold a2 in E. rewrite Ha in E.
+      transitivity (- ((if Z.eqb K 0 then rO + rO else rO) - cf K N))%r; [destruct (Z.eqb K 0); ring|].
+      rewrite <- E. ring. }
+    assert (Hxc0 : xc == []).
+    { apply (cancel_l R rO rI radd rmul rsub ropp Rth A SH x xc y Hx Wxc Hy Hyx).
+      transitivity N; [symmetry; exact EqN | exact HN0]. }
+    apply H10. apply (zero_no_inverse R rO rI radd rmul rsub ropp Rth A x y Hx); [|exact Hxy].
+    apply (involution_zero R rO rI radd rmul rsub ropp Rth A SH grades_conjugate x Hx).
+    transitivity xc; [symmetry; exact Exc | exact Hxc0].
+  Qed.
+End Hitzer4.
+
+(* ================= 8. alg.inv for every d <= 4 ================= *)
+Section HitzerLe4.
+  Variable R : Type.
+  Variables (rO rI : R) (radd rmul rsub : R -> R -> R) (ropp : R -> R).
+  Hypothesis Rth : ring_theory rO rI radd rmul rsub ropp (@eq R).
+  Local Notation O := (mkOps R radd rsub rmul ropp rO rI).
+  Local Notation "a * b" := (rmul a b) : kvr_scope.
+  Local Notation equiv := (Sparse.equiv rO rI radd rmul rsub ropp).
+  Local Infix "==" := equiv (at level 70, no associativity).
+  Local Notation scal := (Algebra.scal rmul).
+  Local Notation one := (Algebra.one rI).
+
+  Variable A : alg.
+  Local Notation wf := (@wfmv R A).
+  Local Notation d := (a_d A).
+  Hypothesis SH : sign_hyps A.
+  Hypothesis Hasc : ascending_ok A = true.
+  Variable dv : R -> R -> R.
+  Variable isz : R -> bool.
+  Variable F : mv R -> mv R.
+  Hypothesis HF : filter_ok rO rI radd rmul rsub ropp A F.
+  Hypothesis Hd : (d <= 4)%nat.
+
+  Local Notation GP := (gp O A).
+  Local Notation has_inverse x := (exists y, wf y /\ GP x y == one /\ GP y x == one).
+
+  (* the closed forms of codegen_hitzer_inv up to four dimensions, with the singular case *)
+  Theorem hitzer_le4 x : wf x ->
+    exists num, hitzer_num O F A x = Ok num /\ wf num /\
+      let den := hitzer_den O F A x num in
+      GP x num == scal den one /\ GP num x == scal den one /\
+      (den = rO -> rI <> rO -> ~ has_inverse x).
+  Proof.
+    intros Hx. destruct (Nat.eq_dec d 4) as [E4|N4].
+    - exact (hitzer_d4 R rO rI radd rmul rsub ropp Rth A SH Hasc F HF E4 x Hx).
+    - assert (H3 : (d <= 3)%nat) by lia.
+      destruct (hitzer_le3 R rO rI radd rmul rsub ropp Rth A SH Hasc F HF x H3 Hx) as (num & En & Wn & H1 & H2).
+      exists num. split; [exact En|]. split; [exact Wn|]. split; [exact H1|]. split; [exact H2|].
+      intros Hden H10.
+      exact (hitzer_singular_le3 R rO rI radd rmul rsub ropp Rth A SH Hasc F HF H3 x num Hx H10 En Hden).
+  Qed.
+
+  Lemma lt6' : Nat.ltb d 6 = true.
+  Proof. apply Nat.ltb_lt. lia. Qed.
+
+  Theorem inv_le4_sound x r : wf x ->
+    (forall b, isz b = false -> (b * dv rI b)%r = rI) ->
+    inv_model O dv isz F A x = Ok r -> GP x r == one /\ GP r x == one.
+  Proof.
+    intros Hx Hdv Hr.
+    destruct (hitzer_le4 x Hx) as (num & En & Wn & H1 & H2 & _).
+    assert (E : inv_numden O dv isz F A x = Ok (num, hitzer_den O F A x num)).
+    { unfold inv_numden. rewrite lt6'. unfold hitzer. rewrite En. reflexivity. }
+    pose proof Hr as Hr'. apply (inv_model_ok R rO rI radd rmul rsub ropp) in Hr'.
+    destruct Hr' as (num' & den' & E' & Hz & _). rewrite E in E'. inversion E'; subst num' den'.
+    exact (inv_model_sound R rO rI radd rmul rsub ropp Rth A SH dv isz F HF x num _ r Hx E H1 H2 (Hdv _ Hz) Hr).
+  Qed.
+
+  Theorem inv_le4_total x : wf x ->
+    (exists r, inv_model O dv isz F A x = Ok r) \/ inv_model O dv isz F A x = Err EZeroDiv.
+  Proof.
+    intros Hx. destruct (hitzer_le4 x Hx) as (num & En & _).
+    unfold inv_model, inv_numden. rewrite lt6'. unfold hitzer. rewrite En. cbn [bind].
+    destruct (isz _); [right; reflexivity | left; eexists; reflexivity].
+  Qed.
+
+  Theorem zde_only_singular_le4 x : wf x -> rI <> rO -> (forall r, isz r = true -> r = rO) ->
+    inv_model O dv isz F A x = Err EZeroDiv -> ~ has_inverse x.
+  Proof.
+    intros Hx H10 Hz H. apply (zde_iff R rO rI radd rmul rsub ropp A dv isz F) in H.
+    destruct H as (num & den & E & Hden). unfold inv_numden in E. rewrite lt6' in E.
+    unfold hitzer in E. apply bind_Ok in E. destruct E as (n & En & E). inversion E; subst n den.
+    destruct (hitzer_le4 x Hx) as (num' & En' & _ & _ & _ & Hs). rewrite En in En'. inversion En'; subst num'.
+    exact (Hs (Hz _ Hden) H10).
+  Qed.
+
+  Theorem inv_le4_complete x : wf x -> rI <> rO ->
+    (forall r, isz r = true -> r = rO) -> (forall b, isz b = false -> (b * dv rI b)%r = rI) ->
+    (has_inverse x <-> exists r, inv_model O dv isz F A x = Ok r)
+    /\ (~ has_inverse x <-> inv_model O dv isz F A x = Err EZeroDiv).
+  Proof.
+    intros Hx H10 Hz Hdv. destruct (inv_le4_total x Hx) as [[r Hr]|He].
+    - assert (Hi : has_inverse x).
+      { exists r. split; [exact (inv_model_wf R rO rI radd rmul rsub ropp A SH dv isz F HF x r Hr)|].
+        exact (inv_le4_sound x r Hx Hdv Hr). }
+      split; split.
+      + intros _. exists r. exact Hr.
+      + intros _. exact Hi.
+      + intros Hn. exfalso. exact (Hn Hi).
+      + rewrite Hr. discriminate.
+    - pose proof (zde_only_singular_le4 x Hx H10 Hz He) as Hs. split; split.
+      + intros Hi. exfalso. exact (Hs Hi).
+      + intros [r Hr]. rewrite He in Hr. discriminate.
+      + intros _. exact He.
+      + intros _. exact Hs.
+  Qed.
+End HitzerLe4.
+
+Lemma defaults_ok_4 : defaults_ok 4 = true. Proof. vm_compute. reflexivity. Qed.
+
+(* every default basis with d <= 4 *)
+Theorem default_le4_ok sig start g :
+  (length sig <= 4)%nat -> Forall (fun s => s = 1 \/ s = -1 \/ s = 0) sig ->
+  (start = 0 \/ start = 1 \/ start = 2) ->
+  let A := mk_default sig start g in
+  sign_hyps A /\ ascending_ok A = true /\ (a_d A <= 4)%nat.
+Proof.
+  intros Hl Hsig Hst A.
+  assert (Hok : default_ok A = true).
+  { assert (Hn : defaults_ok (length sig) = true).
+    { destruct (length sig) as [|[|[|[|[|n]]]]]; [exact defaults_ok_0 | exact defaults_ok_1
+        | exact defaults_ok_2 | exact defaults_ok_3 | exact defaults_ok_4 | lia]. }
+    unfold defaults_ok in Hn. rewrite forallb_forall in Hn.
+    specialize (Hn sig (hz_sigs_complete sig Hsig)). rewrite forallb_forall in Hn.
+    assert (Hs : In start [0; 1; 2]) by (cbn [In]; destruct Hst as [H|[H|H]]; subst start; auto).
+    specialize (Hn start Hs). rewrite forallb_forall in Hn.
+    apply Hn. destruct g; cbn [In]; auto. }
+  unfold default_ok in Hok. apply andb_true_iff in Hok. destruct Hok as [Hwf Hasc].
+  split; [apply wf_sign_hyps; exact Hwf|]. split; [exact Hasc|]. exact Hl.
+Qed.
+
+(* over Z in Cl(3,1): a dense operand, numerator and denominator of the model, x * num = num * x = den *)
+Example hitzer_Z4 :
+  let A := mk_default [1; 1; 1; -1] 1 false in
+  let x := [(0, 2); (1, 1); (2, -1); (4, 3); (8, 1); (3, 2); (5, 1); (9, -2); (6, 1); (10, 1); (12, 2);
+            (7, 1); (11, -1); (13, 1); (14, 3); (15, 1)] in
+  match hitzer Zops idF A x with
+  | Ok (num, den) => mv_equiv A (gp Zops A x num) [(0, den)] = true
+                     /\ mv_equiv A (gp Zops A num x) [(0, den)] = true /\ den <> 0
+  | Err _ => False
+  end.
+Proof. vm_compute. repeat split; discriminate. Qed.
